@@ -47,14 +47,58 @@ def rule_raise_classes(ctx: Ctx, rule: str = "raise-class") -> None:
             if node.exc is None or (isinstance(node.exc, ast.Name) and not exc.known(node.exc.id)):
                 ctx.ok(rule, fi.key, construct + " (re-raise)", nontrivial=False)
                 continue
-            if cls is not None and documented(exc, cls):
+            if cls is not None and documented(exc, cls) and not (cls in PYPARSING_ERRORS and fi.module.relpath.endswith("grammar.py")):
                 ctx.ok(rule, fi.key, construct + ": " + cls, nontrivial=False)
                 continue
             if cls == "AssertionError" and _unreachable_after_exhaustive_isinstance(prog, fi, node):
                 ctx.ok(rule, fi.key, construct + ": AssertionError after an exhaustive isinstance chain (unreachable)")
                 continue
+            if cls in PYPARSING_ERRORS and fi.module.relpath.endswith("grammar.py"):
+                # raised by a parse action: it travels up through parse_string; fine iff every parse_string call of the
+                # package converts pyparsing's errors into a documented class
+                bad_sites = _unwrapped_parse_calls(prog, exc)
+                if not bad_sites:
+                    ctx.ok(rule, fi.key, construct + ": %s in a parse action, converted to the syntax error by every caller of parse_string" % cls)
+                else:
+                    ctx.violation(rule, fi.key, "explicit raise of %s" % cls, "raised by a parse action, but %s calls parse_string without converting pyparsing errors" % bad_sites[0], where="%s:%d" % (fi.module.relpath, node.lineno))
+                continue
             ctx.violation(rule, fi.key, "explicit raise of %s" % cls, "`%s` raises %s, which is not a documented error class" % (norm(node)[:90], cls), where="%s:%d" % (fi.module.relpath, node.lineno))
     ctx.floor("explicit raise statements", n, 60)
+
+
+# pyparsing's own hierarchy (library fact): all derive from ParseBaseException
+PYPARSING_ERRORS = {"ParseException", "ParseFatalException", "ParseSyntaxException", "ParseBaseException"}
+
+
+def _unwrapped_parse_calls(prog: Program, exc: ExcTable) -> List[str]:
+    """parse_string / parseString call sites that are not inside a try whose handler catches pyparsing's base error
+    (or Exception) and raises a documented class."""
+    out: List[str] = []
+    for fi in prog.all_functions():
+        if isinstance(fi.node, ast.Lambda):
+            continue
+        parents: Dict[ast.AST, ast.AST] = {}
+        for nd in ast.walk(fi.node):
+            for ch in ast.iter_child_nodes(nd):
+                parents[ch] = nd
+        for nd in ast.walk(fi.node):
+            if not (isinstance(nd, ast.Call) and isinstance(nd.func, ast.Attribute) and nd.func.attr in ("parse_string", "parseString")):
+                continue
+            ok = False
+            cur: ast.AST = nd
+            while cur in parents and not ok:
+                par = parents[cur]
+                if isinstance(par, ast.Try) and any(cur is s_ for s_ in par.body):
+                    for h in par.handlers:
+                        names = [norm(t).split(".")[-1] for t in (h.type.elts if isinstance(h.type, ast.Tuple) else [h.type])] if h.type is not None else ["BaseException"]
+                        if any(nm in ("ParseBaseException", "Exception", "BaseException") for nm in names):
+                            raises = [x for x in ast.walk(h) if isinstance(x, ast.Raise) and x.exc is not None]
+                            if raises and all((exc_class_of(r.exc) is not None and documented(exc, exc_class_of(r.exc))) for r in raises):
+                                ok = True
+                cur = par
+            if not ok:
+                out.append("%s (%s:%d)" % (fi.key, fi.module.relpath, nd.lineno))
+    return out
 
 
 def _unreachable_after_exhaustive_isinstance(prog: Program, fi: FuncInfo, node: ast.Raise) -> bool:
@@ -820,3 +864,237 @@ def _is_values_loop_var(fi: FuncInfo, e: ast.AST) -> bool:
             if t.endswith(".items()") and isinstance(tgt, ast.Tuple) and len(tgt.elts) == 2 and isinstance(tgt.elts[1], ast.Name) and tgt.elts[1].id == e.id:
                 return True
     return False
+
+
+def rule_solver_dict_keys(ctx: Ctx, rule: str = "solver-dict-keys") -> None:
+    """C14: the dictionary returned by PolyhedralTerm.solve_for_variables has whatever keys sympy solved for (it is
+    partial for dependent rows and empty when there is no solution).  Every subscript of it must use a key that was
+    taken from the dictionary itself (iteration over it / .keys() / .items(), or a membership test on the path);
+    otherwise KeyError escapes, which the tactic dispatcher does not absorb."""
+    from .pathsim import Sim, walk, mentions, show as vshow
+
+    prog = ctx.prog
+    producer = "solve_for_variables"
+    n = 0
+    for fi in prog.all_functions():
+        if isinstance(fi.node, ast.Lambda):
+            continue
+        if not any(isinstance(c, ast.Call) and isinstance(c.func, ast.Attribute) and c.func.attr == producer for c in ast.walk(fi.node)):
+            continue
+        try:
+            paths = Sim(prog, fi, loop_iters=(0, 1, 2), max_paths=6000).paths()
+        except AnalysisError as ex:
+            ctx.cannot_decide(rule, fi.key, "subscripts of the solver's dictionary", str(ex))
+            continue
+        bad: Dict[str, str] = {}
+        good = 0
+        for p in paths:
+            dicts = {e["result"] for e in p.events if e["kind"] == "call" and e["callee"].endswith(producer)}
+            if not dicts:
+                continue
+            # a square system that numpy.linalg.solve accepted (LinAlgError, a ValueError, otherwise) over the same
+            # rows is non-singular: the symbolic solver then returns a value for every requested variable
+            full = set()
+            solved_rows = [a for e in p.events if e["kind"] == "call" and e["callee"].endswith("linalg.solve") for a in e["args"]]
+            for e in p.events:
+                if e["kind"] == "call" and e["callee"].endswith(producer):
+                    srcs = {x for a in e["args"] for x in walk(a) if isinstance(x, tuple) and x and x[0] == "item"}  # the row / variable lists handed to the solver
+                    if solved_rows and srcs and any(mentions(m, lambda y, srcs=srcs: y in srcs) for m in solved_rows):
+                        full.add(e["result"])
+            member_ok = set()
+            for e in p.events:
+                if e["kind"] == "branch" and e["taken"]:
+                    for x in walk(e["test"]):
+                        if isinstance(x, tuple) and x and x[0] == "cmp" and x[1] == "In" and x[3] in dicts:
+                            member_ok.add((x[3], x[2]))
+            seen = set()
+            roots = [p.value] if p.value is not None else []
+            for e in p.events:
+                roots += [v for v in list(e.get("args", ())) + [e.get("recv"), e.get("value"), e.get("test")] if v is not None]
+            for r in roots:
+                for x in walk(r):
+                    if not (isinstance(x, tuple) and x and x[0] == "sub" and x[1] in dicts) or x in seen:
+                        continue
+                    seen.add(x)
+                    d, k = x[1], x[2]
+                    own = False
+                    if isinstance(k, tuple) and len(k) == 4 and k[0] == "iter":
+                        src = k[1]
+                        own = src == d or (isinstance(src, tuple) and src[0] == "mcall" and src[1] == "keys" and src[2] == d)
+                    if isinstance(k, tuple) and k and k[0] == "item" and k[2] == 0 and isinstance(k[1], tuple) and len(k[1]) == 4 and k[1][0] == "iter":
+                        src = k[1][1]
+                        own = own or (isinstance(src, tuple) and src[0] == "mcall" and src[1] == "items" and src[2] == d)
+                    if own or (d, k) in member_ok or d in full:
+                        good += 1
+                    else:
+                        bad[vshow(k, 4)] = p.label()
+        n += good + len(bad)
+        if not good and not bad and any(p.calls(producer) for p in paths):
+            n += 1  # the dictionary is consumed without subscripts (items() / values()): nothing can be missing
+            ctx.ok(rule, fi.key, "%s: the solver's dictionary is consumed without subscripts" % fi.key.split(".")[-1], nontrivial=False)
+        construct = "%s: the solver's dictionary is only read at keys it is known to have" % fi.key.split(".")[-1]
+        if bad:
+            k0 = sorted(bad)[0]
+            ctx.violation(rule, fi.key, construct, "read at %s, which need not be among the solved variables (dependent rows give a partial solution, no solution gives {}): KeyError escapes (path %s)" % (k0, bad[k0]), where=fi.where)
+        elif good:
+            ctx.ok(rule, fi.key, construct)
+    ctx.floor("solver dictionary reads", n, 1)
+
+
+# ---------------------------------------------------------------------------
+# Division sites (ZeroDivisionError must not escape)
+# ---------------------------------------------------------------------------
+def _stmt_exits(body: List[ast.stmt]) -> bool:
+    return bool(body) and isinstance(body[-1], (ast.Continue, ast.Raise, ast.Return, ast.Break))
+
+
+def _zero_tests(test: ast.AST) -> List[str]:
+    """Normalised texts E such that the test is true whenever E == 0 (E == 0, 0 == E, not E, or-combinations)."""
+    out: List[str] = []
+    if isinstance(test, ast.BoolOp) and isinstance(test.op, ast.Or):
+        for v in test.values:
+            out += _zero_tests(v)
+    elif isinstance(test, ast.Compare) and len(test.ops) == 1 and isinstance(test.ops[0], ast.Eq):
+        l, r = test.left, test.comparators[0]
+        if isinstance(r, ast.Constant) and r.value == 0:
+            out.append(canon(l))
+        if isinstance(l, ast.Constant) and l.value == 0:
+            out.append(canon(r))
+    elif isinstance(test, ast.UnaryOp) and isinstance(test.op, ast.Not):
+        out.append(canon(test.operand))
+    return out
+
+
+def rule_division_sites(ctx: Ctx, rule: str = "division-by-zero") -> None:
+    """C14: ZeroDivisionError is not a documented error.  Every true division in the library (plots excluded, C18) has a
+    denominator that is (a) a non-zero literal, (b) the stored coefficient of a variable known to occur in the term
+    (stored coefficients are non-zero: the kernel laws of this check), or (c) tested against zero on the way, the zero
+    branch leaving.  A denominator that is a number parsed from the constraint string and not tested is a violation."""
+    prog = ctx.prog
+    n = 0
+    for fi in prog.all_functions():
+        if isinstance(fi.node, ast.Lambda) or fi.module.relpath.endswith("plots.py"):
+            continue
+        sites = [nd for nd in ast.walk(fi.node) if (isinstance(nd, ast.BinOp) and isinstance(nd.op, ast.Div)) or (isinstance(nd, ast.AugAssign) and isinstance(nd.op, ast.Div))]
+        if not sites:
+            continue
+        fl = Flow(fi.node)
+        parents: Dict[ast.AST, ast.AST] = {}
+        for nd in ast.walk(fi.node):
+            for ch in ast.iter_child_nodes(nd):
+                parents[ch] = nd
+
+        def defs_of(name: str) -> List[ast.AST]:
+            return fl.defs.get(name, [])
+
+        def from_vars_of(e: ast.AST, holder: str, depth: int = 0) -> bool:
+            """e denotes a variable that occurs in <holder>: an element of list_intersection(.., holder.vars)."""
+            if depth > 4:
+                return False
+            if isinstance(e, ast.Subscript):
+                return from_vars_of(e.value, holder, depth + 1)
+            if isinstance(e, ast.Call) and isinstance(e.func, ast.Name) and e.func.id == "list_intersection":
+                return any(canon(a) == holder + ".vars" for a in e.args)
+            if isinstance(e, ast.Attribute) and canon(e) == holder + ".vars":
+                return True
+            if isinstance(e, ast.Name):
+                ds = defs_of(e.id)
+                return bool(ds) and all(from_vars_of(d, holder, depth + 1) for d in ds)
+            return False
+
+        def guarded_membership(var: ast.AST, holder: str, site: ast.AST) -> bool:
+            for nd in ast.walk(fi.node):
+                if isinstance(nd, ast.If) and nd.lineno < site.lineno and _stmt_exits(nd.body):
+                    t = nd.test
+                    if isinstance(t, ast.Compare) and len(t.ops) == 1 and isinstance(t.ops[0], ast.NotIn) and canon(t.left) == canon(var) and canon(t.comparators[0]) == holder + ".vars":
+                        return True
+                    if isinstance(t, ast.UnaryOp) and isinstance(t.op, ast.Not) and isinstance(t.operand, ast.Call) and canon(t.operand.func) == holder + ".contains_var" and canon(t.operand.args[0]) == canon(var):
+                        return True
+            return False
+
+        def coefficient_of_present(d: ast.AST, site: ast.AST, depth: int = 0) -> Optional[str]:
+            if depth > 3:
+                return None
+            if isinstance(d, ast.Call) and isinstance(d.func, ast.Attribute) and d.func.attr == "get_coefficient" and len(d.args) == 1:
+                holder = canon(d.func.value)
+                if from_vars_of(d.args[0], holder) or guarded_membership(d.args[0], holder, site):
+                    return "coefficient of a variable that occurs in %s" % holder
+            if isinstance(d, ast.Subscript):
+                base = d.value
+                if isinstance(base, ast.Attribute) and base.attr == "variables":
+                    holder = canon(base.value)
+                    if from_vars_of(d.slice, holder) or guarded_membership(d.slice, holder, site):
+                        return "stored coefficient of a variable that occurs in %s" % holder
+                if isinstance(base, ast.Name):
+                    for df in defs_of(base.id):
+                        if isinstance(df, ast.DictComp) and len(df.generators) == 1:
+                            g = df.generators[0]
+                            val = df.value
+                            if isinstance(val, ast.Call) and isinstance(val.func, ast.Attribute) and val.func.attr == "get_coefficient" and canon(val.args[0]) == canon(g.target) == canon(df.key):
+                                holder = canon(val.func.value)
+                                if from_vars_of(g.iter, holder) and (from_vars_of(d.slice, holder)):
+                                    return "coefficient of a variable that occurs in %s (via %s)" % (holder, base.id)
+            if isinstance(d, ast.Name):
+                ds = defs_of(d.id)
+                rs = [coefficient_of_present(x, site, depth + 1) for x in ds]
+                if rs and all(rs):
+                    return rs[0]
+            return None
+
+        def zero_guarded(d: ast.AST, site: ast.AST) -> bool:
+            want = canon(d)
+            # an enclosing or preceding `if <want> == 0 ...: leave` in a block that contains the site
+            cur: ast.AST = site
+            while cur in parents:
+                par = parents[cur]
+                for fld in ("body", "orelse"):
+                    blk = getattr(par, fld, None)
+                    if isinstance(blk, list) and any(cur is s_ for s_ in blk):
+                        for s_ in blk:
+                            if s_ is cur:
+                                break
+                            if isinstance(s_, ast.If) and want in _zero_tests(s_.test) and _stmt_exits(s_.body):
+                                return True
+                if isinstance(par, ast.If) and any(cur is s_ for s_ in par.orelse) and want in _zero_tests(par.test):
+                    return True
+                cur = par
+            return False
+
+        def parsed_number(d: ast.AST) -> bool:
+            """the denominator is an element of the parser's token chain (a number written in the constraint string)"""
+            if not fi.module.relpath.endswith("grammar.py"):
+                return False
+            names = {x.id for x in ast.walk(d) if isinstance(x, ast.Name)}
+            seen = set()
+            work = list(names)
+            while work:
+                nm = work.pop()
+                if nm in seen:
+                    continue
+                seen.add(nm)
+                if nm in fi.params:
+                    return True
+                for df in defs_of(nm):
+                    work += [x.id for x in ast.walk(df) if isinstance(x, ast.Name)]
+            return False
+
+        for site in sites:
+            den = site.right if isinstance(site, ast.BinOp) else site.value
+            n += 1
+            construct = "%s: division by %s cannot raise ZeroDivisionError" % (fi.key.split(".")[-1], norm(den)[:60])
+            where = "%s:%d" % (fi.module.relpath, site.lineno)
+            if isinstance(den, ast.Constant) and isinstance(den.value, (int, float)) and den.value != 0:
+                ctx.ok(rule, fi.key, construct, "non-zero literal", nontrivial=False)
+                continue
+            if zero_guarded(den, site):
+                ctx.ok(rule, fi.key, construct, "tested against zero on the way, the zero branch leaves")
+                continue
+            why = coefficient_of_present(den, site)
+            if why:
+                ctx.ok(rule, fi.key, construct, why + " (stored coefficients are non-zero: kernel laws)")
+                continue
+            if parsed_number(den):
+                ctx.violation(rule, fi.key, construct, "the denominator is a number written in the constraint string and is not tested: '(1/0) x <= 1' escapes as ZeroDivisionError instead of the syntax error", where=where)
+                continue
+            ctx.cannot_decide(rule, fi.key, construct, "no evidence found that the denominator is non-zero")
+    ctx.floor("division sites", n, 5)
